@@ -415,15 +415,15 @@ var vhC09Names = []string{"p1", "a_b", "aB", "Value", "value", "err", "controlle
 func vhC09ParamNames(nNames int, engine, n1, n2, l1, l2 int) {
 	locs := []string{"Query", "Header"}
 	routes := []vhC09Route{{name: "Op", verb: "GET", path: "/op", params: []vhC09Param{{vhC09Names[n1], locs[l1], "string"}, {vhC09Names[n2], locs[l2], "*int"}}, result: 1}}
+	// the handler declares <lowerCamel(name)>Raw / RawPtr per parameter: two names that differ only in what lower
+	// camel case erases would meet in one local, so such a project has to be refused (it was not: 9.4, fixed)
+	collide := strcase.ToLowerCamel(vhC09Names[n1]) == strcase.ToLowerCamel(vhC09Names[n2])
 	run, ok := vhC09Generate(routes, vhC09Config(engine, ""))
-	if !ok {
+	if collide {
+		symxAssert(!ok, "C09.parameters-meeting-in-one-generated-local-are-refused")
+		symxCover("C09.colliding-names")
 		return
 	}
-	// the handler declares <lowerCamel(name)>Raw / RawPtr per parameter: two names that differ only in what lower
-	// camel case erases meet in one local (recorded finding; everything else must still hold)
-	collide := strcase.ToLowerCamel(vhC09Names[n1]) == strcase.ToLowerCamel(vhC09Names[n2])
-	symxKnownFor("C09-parameter-names-collide-after-camel-casing", "C09.parameters-of-a-route-get-distinct-locals", collide)
-	symxAssert(!collide, "C09.parameters-of-a-route-get-distinct-locals")
 	vhC09Finish(run, ok, "routes", engine, "Op")
 }
 
@@ -499,7 +499,7 @@ func vh_C09_front_cross_T() {
 	engine := symxChoice("engine", 5)
 	body := symxChoice("body", len(vhC09BodyTypes))
 	res := symxChoice("result", len(vhC09Results))
-	pt := symxChoice("ptype", len(vhC09ParamTypes))
+	pt := []int{1, 6, 7, 12}[symxChoice("ptype", 4)]                                                                  // int, Kind, other.Kind, []string
 	symxAssume(!strings.HasPrefix(vhC09BodyTypes[body], "map[") && !strings.HasPrefix(vhC09Results[res][0], "(map[")) // recorded findings, see the _Q harnesses
 	cfg := vhC09Config(engine, "")
 	cfg.RoutesConfig.ValidateResponsePayload = vhC09Flag("validateResponsePayload")
